@@ -47,3 +47,62 @@ def run_wsm_under_miri(prop, seeds, verif_seed, mon, what, timeout=3600, extra_f
         mon.inconc("no Miri run completed for %s" % prop)
     mon.ev(evals)
     mon.cell(("miri", prop, runs))
+
+
+def run_multi(prop, verif_seeds, many, mon, what, parallel=8, timeout=5400):
+    """Several interpreter processes in parallel, one per workload seed; each runs `many` scheduler seeds."""
+    env = dict(os.environ, CARGO_NET_OFFLINE="true")
+    flags = "-Zmiri-disable-isolation" + (" -Zmiri-many-seeds=0..%d" % many if many > 1 else "")
+    env["MIRIFLAGS"] = flags
+    t0 = time.time()
+    # build once so that the parallel runs do not wait on the cargo lock one after the other
+    subprocess.run(["cargo", "+nightly", "miri", "run", "--offline", "-q", "-p", "wsm"], cwd=HARNESS, env=env,
+                   stdout=subprocess.PIPE, stderr=subprocess.PIPE)
+    pending = list(verif_seeds)
+    running = []
+    done_runs = 0
+    evals = 0
+    deadline = t0 + timeout
+    while pending or running:
+        while pending and len(running) < parallel:
+            vs = pending.pop(0)
+            cmd = ["cargo", "+nightly", "miri", "run", "--offline", "-q", "-p", "wsm", "--", prop, "--tier", "miri", "--seed", str(vs)]
+            p = subprocess.Popen(cmd, cwd=HARNESS, env=env, stdout=subprocess.PIPE, stderr=subprocess.PIPE)
+            running.append((vs, p, cmd))
+        time.sleep(0.5)
+        still = []
+        for vs, p, cmd in running:
+            if p.poll() is None:
+                if time.time() > deadline:
+                    p.kill()
+                    mon.inconc("Miri watchdog fired for %s workload seed %s (inconclusive)" % (prop, vs))
+                else:
+                    still.append((vs, p, cmd))
+                continue
+            out = p.stdout.read().decode(errors="replace")
+            err = p.stderr.read().decode(errors="replace")
+            runs = len(re.findall(r"^EVAL\t", out, re.M))
+            done_runs += runs
+            evals += sum(int(x) for x in re.findall(r"^EVAL\t(\d+)", out, re.M))
+            for line in out.splitlines():
+                if line.startswith("VIOLATION\t"):
+                    q = line.split("\t")
+                    mon.violation(q[1] + ":under_miri", q[2], {"engine": "wsm", "args": q[3].split(" ") if len(q) > 3 else [], "under": "miri", "seed": vs})
+            if "Undefined Behavior" in err or "Data race" in err or "data race" in err:
+                first = re.search(r"error: .*", err)
+                mon.violation("%s:miri_report" % prop.lower(), "Miri reported: %s" % (first.group(0)[:300] if first else "?"),
+                              {"engine": "miri", "cmd": " ".join(cmd), "flags": flags})
+            elif "memory leaked" in err:
+                mon.violation("%s:miri_leak" % prop.lower(), "Miri reported a memory leak", {"engine": "miri", "cmd": " ".join(cmd), "flags": flags})
+            elif p.returncode not in (0, 1) or runs == 0:
+                mon.inconc("Miri run for %s (workload seed %s) exited with %d after %d runs: %s" % (prop, vs, p.returncode, runs, err[-300:].replace("\n", " / ")))
+        running = still
+    mon.count("miri_seeds_completed", done_runs)
+    mon.count("miri_monitor_evaluations", evals)
+    mon.count("miri_workload_seeds", len(verif_seeds))
+    mon.ev(evals)
+    mon.cell(("miri", prop, done_runs))
+    mon.note("Miri: %s; MIRIFLAGS=%s; %d workload seeds x %d scheduler seeds, %d interpreter runs completed in %.0fs" % (
+        what, flags, len(verif_seeds), many, done_runs, time.time() - t0))
+    if done_runs == 0:
+        mon.inconc("no Miri run completed for %s" % prop)
